@@ -1,5 +1,5 @@
 (* Extraction of the scheduler / task-runner model (C17).  Directives: ExtrOcamlBasic only. *)
 From Coq Require Import ZArith List Extraction ExtrOcamlBasic.
-From Inf Require Import base.ExtrBase model.SchedM.
+From Inf Require Import base.ExtrBase model.SchedM proofs.SchedCrashP.
 Extraction Language OCaml.
-Extraction "extract/c17_model.ml" extr_anchor scheduler scheduler_g rrun rstep runner_init quiescent.
+Extraction "extract/c17_model.ml" extr_anchor scheduler scheduler_g init_phase start main_prefix rrun rstep runner_init quiescent.
